@@ -1,1 +1,25 @@
-/- C01 — property theorems (stub: not built yet) -/
+import Rivaas.Model.Radix
+import Rivaas.Spec.MatchClass
+/-
+C01 — Route dispatch is sound, complete and priority-respecting.
+(first stage: witnesses of the recorded and repaired findings; the refinement theorems follow)
+-/
+namespace Rivaas.C01
+open Rivaas.Route Rivaas.Radix Rivaas.Match
+
+def B (s : String) : Bytes := s.toList
+def anySat : Nat → Bytes → Bool := fun _ _ => true
+
+/-! ### K01a — one parameter child per node keeps the first registered name -/
+def k01aScript : List Reg := [⟨B "GET", [], B "/a/:x/b", []⟩, ⟨B "GET", [], B "/a/:y/c", []⟩]
+def k01aRoutes : List Route :=
+  [⟨B "GET", B "/a/:x/b", [.lit (B "a"), .par (B "x"), .lit (B "b")], [], 0⟩,
+   ⟨B "GET", B "/a/:y/c", [.lit (B "a"), .par (B "y"), .lit (B "c")], [], 1⟩]
+def k01aReq : Req := ⟨B "GET", B "/a/1/c", [B "x", B "y"]⟩
+
+theorem K01a_witness :
+    serve anySat (build false k01aScript) k01aReq ≠ refMatch anySat false k01aRoutes k01aReq [B "a", B "1", B "c"]
+    ∧ dNames k01aRoutes k01aReq [B "a", B "1", B "c"] = true := by
+  decide
+
+end Rivaas.C01
